@@ -92,7 +92,8 @@ func main() {
 		"(non-trivial: >= 2 sessions and at least one blocked resolution; distinct by script); engine f8race: one directed probe; " +
 		"engine udprelay: one case = one relay run through service.Config->Manager: server {none,socks5,ss2022,direct} x client {direct,none,socks5,ss2022} x batch {no,sendmmsg} x " +
 		"script of send / reply / garbage (6 kinds, from known and never-seen addresses) / move (client address change) / burst (40 garbage datagrams, goroutine+fd accounting) / " +
-		"stall (held resolution while 64+k datagrams fill the send queue), then an optional concurrent flood with resolutions released in random order; " +
+		"stall (held resolution while 64+k datagrams — some to unresolvable names — fill the send queue: one uplink batch with drops inside) / " +
+		"rburst (6..14 replies in ONE sendmmsg with truncated / oversize / unparsable ones inside; >= 4 per run), then an optional concurrent flood with resolutions released in random order; " +
 		"non-trivial if at least two relay sessions carried datagrams in both directions; distinct by (protocols, script)"
 	dns := installDNS()
 	var err error
